@@ -85,7 +85,7 @@ def forbidden_scan():
 def build_coq():
     """Incremental full build under a lock (several checks may run at once)."""
     r = subprocess.run([os.path.join(VERIF, "setup.sh")], capture_output=True, text=True, timeout=3400)  # takes its own lock
-    return r.returncode == 0, (r.stdout + r.stderr)[-4000:]
+    return (r.returncode == 0 and "did not build" not in r.stdout), (r.stdout + r.stderr)[-4000:]
 
 
 def check_props(prop, scratch):
